@@ -31,6 +31,27 @@ theorem history_total (authic : Bool) (V : Bytes → Bytes → Bytes → Except 
     ∃ r, runBatches authic V bs [] [] = .ok r :=
   runBatches_total authic V hV bs [] []
 
+/-- … and the non-greedy entry point `serviceAllRxOnce()` (one datagram, one fuse pass, one memo to the inbox) never raises either -/
+theorem service_once_total (authic : Bool) (V : Bytes → Bytes → Bytes → Except Exn Unit) (hV : VSafe V) (es : List Entry) (q : List (Bytes × Nat))
+    (rxms : List Memo) : ∃ r, serviceAllRxOnce authic V es q rxms = .ok r := by
+  have hstep : ∃ r, recvOnceStep authic V es q = .ok r := by
+    cases q with
+    | nil => exact ⟨_, rfl⟩
+    | cons gs q' =>
+      obtain ⟨g, s⟩ := gs
+      by_cases hg : g.isEmpty = true
+      · exact ⟨(es, q'), by simp [recvOnceStep, hg]⟩
+      · have hne : g ≠ [] := by intro h; simp [h] at hg
+        obtain ⟨es', h⟩ := recvOne_total authic V es g s hV hne
+        exact ⟨(es', q'), by simp [recvOnceStep, hg, h]⟩
+  obtain ⟨⟨es1, q1⟩, h1⟩ := hstep
+  obtain ⟨⟨es2, d⟩, h2⟩ := fuseAll_total es1
+  unfold serviceAllRxOnce
+  simp only [h1, h2]
+  cases rxms ++ d with
+  | nil => exact ⟨_, rfl⟩
+  | cons m rest => exact ⟨_, rfl⟩
+
 /-- the classes header parsing can raise are all stopped by the regenerated `except` clause (re-checked by `decide` on every run);
 `UnboundLocalError` (ack codes, before the fix) is NOT — the model raises `MemoerError` for acks like the fixed code -/
 theorem parse_classes_caught :
@@ -81,6 +102,120 @@ theorem authic_requires_verified (V : Bytes → Bytes → Bytes → Except Exn U
     (h : pick true vidOf V gram = .ok p) : ∃ sig fore vid, splitSig gram = some (sig, fore) ∧ V vid sig fore = .ok () :=
   pick_ver vidOf V gram p h
 
+/-! ### which key: `Memoer.verify` itself (`verifyM`), over the receiver's keep
+
+`verifyM P keep` is the model of `Memoer.verify`; only the decoding of qualified Base64 material and the ed25519 check stay parameters (`P`). -/
+
+/-- the key a signer id is verified against: the key embedded in the id for the non-transferable code 'B' only; otherwise the key the
+receiver's keep holds for that id -/
+def KeyFor (P : VerifyParts) (keep : List (Bytes × Bytes)) (vid key : Bytes) : Prop :=
+  ∃ raw code, P.decVID vid = .ok (raw, code) ∧
+    ((code = 66 ∧ key = raw) ∨ (code ≠ 66 ∧ ∃ qvk, keep.lookup vid = some qvk ∧ P.decQVK qvk = .ok key))
+
+/-- C22.3, key authority: whenever `verify` accepts, the signature decoded and passed the ed25519 check under the key `KeyFor` names —
+for a transferable ('D') or digest ('E') id that is the key in the receiver's keep, NOT the key embedded in the id -/
+theorem verify_key_authority (P : VerifyParts) (keep : List (Bytes × Bytes)) (vid sig ser : Bytes) (h : verifyM P keep vid sig ser = .ok ()) :
+    ∃ key rawsig, KeyFor P keep vid key ∧ P.decSGN sig = .ok rawsig ∧ P.check key rawsig ser = true := by
+  unfold verifyM at h
+  split at h
+  · simp at h
+  · split at h
+    · simp at h
+    · rename_i key hk
+      split at h
+      · split at h <;> simp at h
+      · rename_i rawsig hs
+        split at h
+        · rename_i hc
+          refine ⟨key, rawsig, ?_, hs, hc⟩
+          cases hd : P.decVID vid with
+          | error e => simp [keyFor, hd] at hk
+          | ok rc =>
+            obtain ⟨raw, code⟩ := rc
+            simp only [keyFor, hd] at hk
+            by_cases hb : code = 66
+            · simp only [hb, if_true] at hk; exact ⟨raw, code, hd, Or.inl ⟨hb, (Except.ok.inj hk).symm⟩⟩
+            · simp only [hb, if_false] at hk
+              cases hq : keep.lookup vid with
+              | none => simp [hq] at hk
+              | some qvk => simp only [hq] at hk; exact ⟨raw, code, hd, Or.inr ⟨hb, qvk, hq, hk⟩⟩
+        · simp at h
+
+/-- a transferable id the keep does not know cannot be verified at all (anybody can mint one): rejected with MemoerVerifyError -/
+theorem verify_unknown_id_rejected (P : VerifyParts) (keep : List (Bytes × Bytes)) (vid sig ser raw : Bytes) (code : Nat)
+    (hu : utf8Valid vid = true) (hd : P.decVID vid = .ok (raw, code)) (hc : code ≠ 66) (hk : keep.lookup vid = none) :
+    verifyM P keep vid sig ser = .error .memoerVerifyError := by
+  simp [verifyM, hu, keyFor, hd, hc, hk]
+
+/-- a ROTATED id: the keep holds key `k2` for it; a signature that passes only under the retired key embedded in the id is rejected -/
+theorem verify_retired_key_rejected (P : VerifyParts) (keep : List (Bytes × Bytes)) (vid sig ser raw qvk k2 : Bytes) (code : Nat)
+    (hd : P.decVID vid = .ok (raw, code)) (hc : code ≠ 66) (hk : keep.lookup vid = some qvk) (hq : P.decQVK qvk = .ok k2)
+    (hbad : ∀ rawsig, P.decSGN sig = .ok rawsig → P.check k2 rawsig ser = false) :
+    verifyM P keep vid sig ser ≠ .ok () := by
+  intro h
+  obtain ⟨key, rawsig, ⟨raw', code', hd', hor⟩, hs, hchk⟩ := verify_key_authority P keep vid sig ser h
+  rw [hd] at hd'; cases hd'
+  rcases hor with ⟨hb, _⟩ | ⟨_, qvk', hq', hk'⟩
+  · exact hc hb
+  · rw [hk] at hq'; cases hq'
+    rw [hq] at hk'; cases hk'
+    rw [hbad rawsig hs] at hchk; cases hchk
+
+/-- the assumptions of the totality / authenticity theorems hold of `verifyM` as soon as the decoders raise only classes the `except` clause
+stops and reject the empty id -/
+theorem verifyM_safe (P : VerifyParts) (keep : List (Bytes × Bytes))
+    (h1 : ∀ v e, P.decVID v = .error e → rxCatches e = true) (h2 : ∀ q e, P.decQVK q = .error e → rxCatches e = true)
+    (h3 : ∀ s e, P.decSGN s = .error e → rxCatches e = true) (h0 : ∀ r, P.decVID [] ≠ .ok r) :
+    VSafe (verifyM P keep) ∧ ∀ s m, verifyM P keep [] s m ≠ .ok () := by
+  constructor
+  · intro v s m e h
+    unfold verifyM at h
+    split at h
+    · cases h; decide
+    · split at h
+      · rename_i x hx
+        cases h
+        unfold keyFor at hx
+        split at hx
+        · rename_i y hy; cases hx; exact h1 _ _ hy
+        · split at hx
+          · simp at hx
+          · split at hx
+            · cases hx; decide
+            · exact h2 _ _ hx
+      · split at h
+        · rename_i x hx
+          split at h
+          · cases h; decide
+          · cases h; exact h3 _ _ hx
+        · split at h
+          · simp at h
+          · cases h; decide
+  · intro s m h
+    obtain ⟨key, rawsig, ⟨raw, code, hd, _⟩, _, _⟩ := verify_key_authority P keep [] s m h
+    exact h0 _ hd
+
+/-- C22.3 with the key spelled out: with signed grams required, from the empty state, after ANY history of service calls over ANY datagrams,
+every delivered memo carries a signer id, and its text is a concatenation of bodies each lying in a signed part whose signature passed the
+ed25519 check under the key the RECEIVER holds for that id (`KeyFor`: embedded key only for non-transferable ids) -/
+theorem authentic_keyed (P : VerifyParts) (keep : List (Bytes × Bytes)) (h0 : ∀ r, P.decVID [] ≠ .ok r)
+    (bs : List (List (Bytes × Nat))) (es : List Entry) (q : List (Bytes × Nat)) (ds : List (List Memo))
+    (h : runBatches true (verifyM P keep) bs [] [] = .ok (es, q, ds)) :
+    ∀ d ∈ ds, ∀ m ∈ d, ∃ vid, m.vid = some vid ∧ ∃ parts : List Bytes, m.text = parts.flatten ∧
+      ∀ b ∈ parts, ∃ sig fore k key rawsig, b = fore.drop k ∧ KeyFor P keep vid key ∧ P.decSGN sig = .ok rawsig ∧ P.check key rawsig fore = true := by
+  have hV0 : ∀ s m, verifyM P keep [] s m ≠ .ok () := by
+    intro s m h'
+    obtain ⟨key, rawsig, ⟨raw, code, hd, _⟩, _, _⟩ := verify_key_authority P keep [] s m h'
+    exact h0 _ hd
+  obtain ⟨hall, _⟩ := authentic (verifyM P keep) hV0 bs es q ds h
+  intro d hd m hm
+  obtain ⟨vid, hv, parts, hp, hsb⟩ := hall d hd m hm
+  refine ⟨vid, hv, parts, hp, ?_⟩
+  intro b hb
+  obtain ⟨sig, fore, k, hver, hbk⟩ := hsb b hb
+  obtain ⟨key, rawsig, hkf, hs, hc⟩ := verify_key_authority P keep vid sig fore hver
+  exact ⟨sig, fore, k, key, rawsig, hbk, hkf, hs, hc⟩
+
 /-! ### non-vacuity: the hypotheses are satisfiable, and concrete tests (bounded checks) -/
 
 /-- a verify that accepts exactly one triple: satisfies both assumptions -/
@@ -92,6 +227,25 @@ example : VSafe Vone := by
   · simp at h
   · cases h; decide
 example : ∀ s m, Vone [] s m ≠ .ok () := by intro s m; simp [Vone]
+/-- concrete third-party parts meeting the hypotheses of `verifyM_safe` / `authentic_keyed`: a 'D' id `[68]` with embedded key `[1]`,
+the keep holds the rotated key `[2]` for it; the check accepts only signature `[9]` under key `[2]` -/
+def Pdemo : VerifyParts where
+  decVID v := if v = [68] then .ok ([1], 68) else .error .memoerError
+  decQVK q := if q = [7] then .ok [2] else .error .memoerError
+  decSGN s := .ok s
+  check k s _ := k == [2] && s == [9]
+
+example : (∀ v e, Pdemo.decVID v = .error e → rxCatches e = true) ∧ (∀ r, Pdemo.decVID [] ≠ .ok r) := by
+  constructor
+  · intro v e h; simp only [Pdemo] at h; split at h
+    · simp at h
+    · cases h; decide
+  · intro r h; simp [Pdemo] at h
+/-- test: current key accepted, retired key (a signature that would only pass under the embedded key `[1]`) rejected -/
+example : verifyM Pdemo [([68], [7])] [68] [9] [0] = .ok () ∧ verifyM Pdemo [([68], [7])] [68] [8] [0] = .error .memoerVerifyError ∧
+    verifyM Pdemo [] [68] [9] [0] = .error .memoerVerifyError := by
+  refine ⟨by rfl, by rfl, by rfl⟩
+
 /-- test: an unknown code `bZZZ…` is dropped (KeyError caught) -/
 example : recvOne false Vone [] ([98, 90, 90, 90] ++ List.replicate 40 65) 1 = .ok [] := by rfl
 /-- test: an ack code is dropped -/
